@@ -40,14 +40,14 @@ func checkC04(h *hx.H, c progCase) {
 	c2.Files["index.d2"] = []byte(formatted)
 	g2, cfg2, err := compileCase(c2)
 	if err != nil {
-		h.Failf(classifyC04(c, m, "formatted-does-not-compile"), "the formatted text does not compile: %v\n--- input\n%s\n--- formatted\n%s", err, c.entry(), formatted)
+		h.Failf(classifyC04(c, m, "formatted-does-not-compile", err.Error()), "the formatted text does not compile: %v\n--- input\n%s\n--- formatted\n%s", err, c.entry(), formatted)
 	}
 	b1, b2 := canon.Of(g1).Sorted(), canon.Of(g2).Sorted()
 	if d := canon.Diff(b1, b2); d != "" {
-		h.Failf(classifyC04(c, m, "meaning-changed"), "the formatted text compiles to a different diagram: %s\n--- input\n%s\n--- formatted\n%s", d, c.entry(), formatted)
+		h.Failf(classifyC04(c, m, "meaning-changed", ""), "the formatted text compiles to a different diagram: %s\n--- input\n%s\n--- formatted\n%s", d, c.entry(), formatted)
 	}
 	if jsonOf(cfg1) != jsonOf(cfg2) {
-		h.Failf(classifyC04(c, m, "config-changed"), "the formatted text compiles to a different configuration: %s vs %s", jsonOf(cfg1), jsonOf(cfg2))
+		h.Failf(classifyC04(c, m, "config-changed", ""), "the formatted text compiles to a different configuration: %s vs %s", jsonOf(cfg1), jsonOf(cfg2))
 	}
 	all := string(c.entry())
 	h.Label(textLabels(all)...)
@@ -60,7 +60,42 @@ func checkC04(h *hx.H, c progCase) {
 
 // classifyC04 attributes a difference to one of the listed formatter behaviours, by the
 // construct present in the input.
-func classifyC04(c progCase, m *d2ast.Map, base string) string {
+func classifyC04(c progCase, m *d2ast.Map, base string, errMsg string) string {
+	// (d) an empty map value is dropped by the formatter (`a.label: {}` -> `a.label`), which a
+	//     reserved field rejects, and which lets an earlier array value of the same key stand
+	emptyOnKeyword, emptyMap, bareBoard := false, false, false
+	d2ast.Walk(m, func(n d2ast.Node) bool {
+		k, ok := n.(*d2ast.Key)
+		if !ok || k == nil {
+			return true
+		}
+		if k.Key != nil && len(k.Key.Path) == 1 && len(k.Edges) == 0 && k.Value.Map == nil {
+			switch strings.ToLower(k.Key.Path[0].Unbox().ScalarString()) {
+			case "layers", "scenarios", "steps":
+				bareBoard = true
+			}
+		}
+		if k.Value.Map == nil || len(k.Value.Map.Nodes) != 0 {
+			return true
+		}
+		emptyMap = true
+		kp := k.Key
+		if k.EdgeKey != nil {
+			kp = k.EdgeKey
+		}
+		if kp != nil && len(kp.Path) > 0 {
+			if _, ok := d2ast.ReservedKeywords[strings.ToLower(kp.Path[len(kp.Path)-1].Unbox().ScalarString())]; ok {
+				emptyOnKeyword = true
+			}
+		}
+		return true
+	})
+	if base == "formatted-does-not-compile" && emptyOnKeyword && strings.Contains(errMsg, "must have a value") {
+		return base + ":empty-map-on-keyword"
+	}
+	if base == "formatted-does-not-compile" && emptyMap && strings.Contains(errMsg, "could not resolve variable") {
+		return base + ":empty-map-dropped-after-array"
+	}
 	// (a) the formatter moves board blocks behind all other content of their map, which
 	//     changes what scenarios/steps inherit ("as declared before the scenario")
 	notLast, upperKey, emptyBoard := false, false, false
@@ -125,26 +160,13 @@ func classifyC04(c progCase, m *d2ast.Map, base string) string {
 	if emptyBoard {
 		return base + ":empty-board-map"
 	}
-	// (d) an empty map value is dropped by the formatter (`a.label: {}` -> `a.label`)
-	emptyOnKeyword := false
-	d2ast.Walk(m, func(n d2ast.Node) bool {
-		k, ok := n.(*d2ast.Key)
-		if !ok || k == nil || k.Value.Map == nil || len(k.Value.Map.Nodes) != 0 {
-			return true
-		}
-		kp := k.Key
-		if k.EdgeKey != nil {
-			kp = k.EdgeKey
-		}
-		if kp != nil && len(kp.Path) > 0 {
-			if _, ok := d2ast.ReservedKeywords[strings.ToLower(kp.Path[len(kp.Path)-1].Unbox().ScalarString())]; ok {
-				emptyOnKeyword = true
-			}
-		}
-		return true
-	})
 	if emptyOnKeyword {
 		return base + ":empty-map-on-keyword"
+	}
+	// (e) a board keyword without a map is dropped by the formatter; the compiler counts the
+	//     bare key as a field that globs match
+	if bareBoard && strings.Contains(string(c.entry()), "*") {
+		return base + ":bare-board-keyword-and-glob"
 	}
 	return base
 }
